@@ -88,6 +88,8 @@ def plan(cfgd):
             ops.add('sort_using')
         elif n == 'mod_remove_duplicate_include' and v == 'true':
             ops.add('dedup')
+        elif n == 'mod_sort_incl_import_grouping_enabled' and v == 'true':
+            ops.add('grouping')      # grouping also removes exact duplicates among the sorted lines (dedupe_imports)
     return kinds, ops
 
 
@@ -113,7 +115,7 @@ def split_lines(stream, ops):
             owned.append(tuple(stream[j:k]))
             i = k + 1
             continue
-        if (('sort_import' in ops and t == 'import') or ('sort_using' in ops and t == 'using')) and (i == 0 or stream[i - 1] in (';', '}', '{', '<EOD>')):
+        if (('sort_import' in ops or 'sort_using' in ops) and t in ('import', 'using')) and (i == 0 or stream[i - 1] in (';', '}', '{', '<EOD>')):
             k = i
             while k < n and stream[k] != ';' and k - i < 40:
                 k += 1
@@ -144,7 +146,7 @@ def compare(a, b, kinds, ops, view):
     a2, la = split_lines(a, ops)
     b2, lb = split_lines(b, ops)
     if ops:
-        if 'dedup' in ops:
+        if 'dedup' in ops or 'grouping' in ops:
             bad = set(lb) - set(la)
             if bad or len(lb) > len(la) or (set(la) - set(lb)):
                 return {'class': 'owned-lines', 'at': [' '.join(sorted(set(la) ^ set(lb))[0])[:60] if set(la) ^ set(lb) else 'count'], 'got': [str(len(lb))],
